@@ -21,6 +21,8 @@ claimed = {
               technique="deterministic simulation: seeded scheduler, sync.Pool fault stub, register linearizability (porcupine), ownership oracle, race detector in-sim"),
   "C19": dict(tier="S", text="Seeded search over the timing of peer, timer, context cancellation and close around one SendTimeout/SendContext/RecvTimeout/RecvContext call (virtual clock, stalls that let a deadline pass while tasks are runnable), and over capacity, fill level, open/closed state, limit and concurrent senders for RecvQueued/RecvQueuedFull; conservation of unique tokens (acknowledged-sent = received + buffered), legitimacy of every false result, FIFO and never-blocks for the queued receivers.", ref="3 (C19)",
               technique="deterministic simulation: seeded scheduler with virtual clock, timer/cancel/close fault injection, token-conservation oracle, race detector in-sim"),
+  "C10": dict(tier="S", text="Seeded search over schedules of publishers (all six variants, WithOnly), per-subscription receivers (well-behaved, slow, stopping, absent), and a control task subscribing and unsubscribing, with the virtual clock driving PubTimeoutAfter and stalls letting deadlines pass; at-most-once, exactly-once / delivery-or-timeout accounting, Sync order, Wait-returns-after-hand-off (no live sender task at return), error values, closing exactly the removed channels, and no panic in any task including library-spawned ones. The known send-on-closed-channel panic of the asynchronous variants is recorded as four open findings.", ref="3 (C10)",
+              technique="deterministic simulation: seeded scheduler with virtual clock, receiver-stall/unsubscribe/close fault injection, conservation and ordering oracles over the recorded history"),
 }
 
 not_applicable = {
